@@ -32,7 +32,7 @@ func init() {
 	register(&Prop{
 		ID:    "C08",
 		Level: "exploration",
-		Rule: "case = grid point (family ∈ {plain, plain-filtered, ordered, ordered-ties, aggregate (limit pushed into the aggregate node), aggregate-ordered (limit wrapped), delete, delete-filtered}, batch size B, unlimited result size R, offset s, count n, drain mode). Each case runs the statement without LIMIT and with `limit s, n` (or `limit n`) in the same mode on equal simulated stores and compares L with U[s:s+n] (ordered families: tie-aware). quick samples the grid by seed with forced inclusion of the coincidences (s a multiple/partial sum of child batch sizes, s = R, n = 0, s+n = R, s > R); thorough enumerates it completely for B ∈ {1,2,3,5,8} and the boundary values for B = 32. distinct_nontrivial counts distinct (family, mode, B, R, s, n) points with R > 0.",
+		Rule: "case = grid point (family ∈ {plain, plain-filtered, ordered, ordered-ties, ordered-2keys, mget, aggregate (limit pushed into the aggregate node), aggregate-ordered (limit wrapped), aggregate-all (no GROUP BY), delete, delete-filtered}, batch size B, unlimited result size R, offset s, count n, drain mode). Each case runs the statement without LIMIT and with `limit s, n` (or `limit n`) in the same mode on equal simulated stores and compares L with U[s:s+n] (ordered families: tie-aware). quick samples the grid by seed with forced inclusion of the coincidences (s a multiple/partial sum of child batch sizes, s = R, n = 0, s+n = R, s > R); thorough enumerates it completely for B ∈ {1,2,3,5,8} and the boundary values for B = 32. distinct_nontrivial counts distinct (family, mode, B, R, s, n) points with R > 0.",
 		Assumptions: []string{
 			"the unlimited result in the same drain mode is taken as the reference (row/batch agreement is C03's property)",
 			"ORDER BY columns are text/integer with uniform dynamic type, so content-equality and the comparator's tie notion coincide",
@@ -51,14 +51,14 @@ func init() {
 		Finish: func(st *Stats, cov map[string]any, tier string) string {
 			if tier == "thorough" {
 				cov["grid_points"] = len(c08Grid())
-				cov["grid"] = "B∈{1,2,3,5,8}: R∈[0,3B+1] × s∈[0,R+2] × n∈{0,1,2,B-1,B,B+1,R,R+1}; B=32: R,s thinned to multiples of B ±1 and the ends; × 8 families × 2 drain modes"
+				cov["grid"] = "B∈{1,2,3,5,8}: R∈[0,3B+1] × s∈[0,R+2] × n∈{0,1,2,B-1,B,B+1,R,R+1}; B=32: R,s thinned to multiples of B ±1 and the ends; × 11 families × 2 drain modes"
 			}
 			return ""
 		},
 	})
 }
 
-var c08Families = []string{"plain", "plain-filtered", "ordered", "ordered-ties", "aggregate", "aggregate-ordered", "delete", "delete-filtered"}
+var c08Families = []string{"plain", "plain-filtered", "ordered", "ordered-ties", "aggregate", "aggregate-ordered", "delete", "delete-filtered", "aggregate-all", "ordered-2keys", "mget"}
 
 type gridPt struct {
 	fam     int
@@ -185,6 +185,34 @@ func c08Build(r *Rng, p gridPt) *Scenario {
 			lc.Base = "select value as g, count(1) as c where key ^= 'k' group by g order by g desc"
 			lc.OrderCols = []int{0}
 		}
+	case "aggregate-all":
+		// no GROUP BY: the unlimited result is one row (none when nothing passes)
+		for i := 0; i < p.r; i++ {
+			init = append(init, KV{fmt.Sprintf("k%03d", i), pick(r, valuePoolInt)})
+		}
+		init = append(init, KV{"a", "1"})
+		lc.Base = "select count(1) as c, sum(int(value)) as s where key ^= 'k'"
+	case "ordered-2keys":
+		for i := 0; i < p.r; i++ {
+			init = append(init, KV{fmt.Sprintf("k%03d", i), pick(r, []string{"1", "2", "3"})})
+		}
+		lc.Base = "select key, int(value) as n where key ^= 'k' order by n " + pick(r, []string{"asc", "desc"}) + ", key " + pick(r, []string{"asc", "desc"})
+		lc.OrderCols = []int{1, 0}
+	case "mget":
+		var ks []string
+		for i := 0; i < p.r; i++ {
+			k := fmt.Sprintf("k%03d", i)
+			init = append(init, KV{k, pick(r, valuePoolInt)})
+			ks = append(ks, k)
+			if r.Chance(0.3) {
+				ks = append(ks, fmt.Sprintf("k%03dmissing", i))
+			}
+		}
+		if len(ks) == 0 {
+			ks = []string{"nokey"}
+		}
+		shuffle(r, ks)
+		lc.Base = "select key, value where key in " + inList(ks)
 	case "delete":
 		for i := 0; i < p.r; i++ {
 			init = append(init, KV{fmt.Sprintf("k%03d", i), pick(r, valuePoolInt)})
